@@ -543,7 +543,15 @@ pub fn run_impl(world: &mut RWorld, cfg: Cfg, ts: &TreeSpec, rng: &mut Rng, n_op
             None => gen_op(rng, ts, &snap, &cfg),
         };
         let step = i + 1;
+        let is_setter = op.name.starts_with("set_");
+        if is_setter {
+            // metadata is read before any content (content reads perturb the access time)
+            push(world, &mut lines, &mut impl_out, Line { who: Who::Both, text: format!("op {} metadata_t {}", cfg.target, enc_str(&op.path)), step, role: "tbefore" });
+        }
         push(world, &mut lines, &mut impl_out, Line { who: Who::Both, text: op.line(cfg.target), step, role: "op" });
+        if is_setter {
+            push(world, &mut lines, &mut impl_out, Line { who: Who::Both, text: format!("op {} metadata_t {}", cfg.target, enc_str(&op.path)), step, role: "tafter" });
+        }
         push(world, &mut lines, &mut impl_out, Line { who: Who::Model, text: op.line(cfg.spec), step, role: "specop" });
         let s = push(world, &mut lines, &mut impl_out, Line { who: Who::Both, text: format!("snap {} {}", cfg.target, uni), step, role: "snap" }).unwrap();
         push(world, &mut lines, &mut impl_out, Line { who: Who::Model, text: format!("snap {} {}", cfg.spec, uni), step, role: "specsnap" });
@@ -840,6 +848,58 @@ pub fn judge(run: &Run, model_out: &[String], ts: &TreeSpec, rep: &mut Report) {
                 rep.fail(mk("prop", format!("{}:{}:marker-visible", kind_class(&run.cfg_name), opname), "overlay bookkeeping (.whiteout / *_wo) is visible in the overlay's namespace".into(), impl_snap, ""));
             }
         }
+        if step > 0 && ts.preds.contains(&"time-roundtrip") && opname.starts_with("set_") {
+            if let (Some(bi), Some(ai)) = (by.get(&(step, "tbefore")), by.get(&(step, "tafter"))) {
+                let before = run.impl_out[*bi].clone().unwrap();
+                let after = run.impl_out[*ai].clone().unwrap();
+                let o = op.unwrap();
+                let field = match opname { "set_ctime" => "c=", "set_mtime" => "m=", _ => "a=" };
+                let get = |s: &str, f: &str| s.split(' ').find(|t| t.starts_with(f)).map(|t| t[2..].to_string());
+                let phys_backed = run.cfg_name.contains("phys");
+                let lower_only = run.overlay && before.starts_with("ok") && impl_res.starts_with("err") && project(&impl_res, 1).ends_with("notFound");
+                // CORR on timestamps (in-memory backed configurations: the host stamps times itself)
+                if !phys_backed && (before != model_out[*bi] || after != model_out[*ai]) {
+                    rep.fail(mk("corr", format!("{}:{}:timestamps", kind_class(&run.cfg_name), opname), format!("metadata with timestamps: implementation {} -> {} / model {} -> {}", before, after, model_out[*bi], model_out[*ai]), &after, &model_out[*ai]));
+                }
+                if impl_res == "ok" {
+                    let want = format!("at{}", o.time.unwrap_or(0));
+                    let mut bad = None;
+                    if get(&after, field) != Some(want.clone()) {
+                        bad = Some(format!("{} reports {:?} after setting {}", field, get(&after, field), want));
+                    }
+                    for f in ["c=", "m=", "a="] {
+                        if f != field && get(&after, f) != get(&before, f) {
+                            bad = Some(format!("setting {} changed {} from {:?} to {:?}", field, f, get(&before, f), get(&after, f)));
+                        }
+                    }
+                    let head = |s: &str| s.split(' ').take(3).collect::<Vec<_>>().join(" ");
+                    if head(&before) != head(&after) {
+                        bad = Some(format!("type/length changed: {} -> {}", head(&before), head(&after)));
+                    }
+                    if let Some(p) = &prev_snap {
+                        if p != impl_snap {
+                            bad = Some(format!("setter changed the tree: {}", first_diff(p, impl_snap)));
+                        }
+                    }
+                    if let Some(b) = bad {
+                        rep.fail(mk("prop", format!("{}:{}:timestamp-roundtrip", kind_class(&run.cfg_name), opname), b, &after, &before));
+                    }
+                } else if impl_res.starts_with("err") {
+                    if before.starts_with("ok") && !project(&impl_res, 1).ends_with("notSupported") {
+                        rep.fail(mk(
+                            "prop",
+                            format!("{}:{}:{}", kind_class(&run.cfg_name), opname, if lower_only { "lower-only-entry-not-found" } else { "refused-not-as-notSupported" }),
+                            format!("the entry exists ({}) but the setter failed with {} instead of not-supported", before, impl_res),
+                            &impl_res,
+                            &before,
+                        ));
+                    }
+                    if before != after {
+                        rep.fail(mk("prop", format!("{}:{}:failed-setter-changed-metadata", kind_class(&run.cfg_name), opname), format!("{} -> {}", before, after), &after, &before));
+                    }
+                }
+            }
+        }
         if step > 0 && ts.preds.contains(&"error-path") && impl_res.starts_with("err") {
             let toks: Vec<&str> = impl_res.split(' ').collect();
             let path = toks.get(2).cloned().unwrap_or("-");
@@ -981,6 +1041,18 @@ pub fn tree_spec_for(prop: &str) -> TreeSpec {
             composite_ops: true,
             time_ops: false,
             preds: vec!["hidden-markers"],
+        },
+        "C19" => TreeSpec {
+            prop: prop.into(),
+            configs: vec!["mem", "phys", "alt(mem)", "alt(phys)", "ovl(mem,mem)", "ovl(phys,mem)", "ovl(mem,phys)", "alt(ovl(mem,mem))", "ovl(alt,alt)"],
+            corr_level: 0,
+            spec_results: false,
+            spec_snapshots: false,
+            wrong_type_calls: false,
+            root_calls: false,
+            composite_ops: false,
+            time_ops: true,
+            preds: vec!["time-roundtrip"],
         },
         "C12" => TreeSpec {
             prop: prop.into(),
